@@ -133,6 +133,15 @@ func Families() []Named {
 		{"default-start-nested", Parse("", abc[:3], "start: TA start TB | TC | A ; A: TB start")},
 		// a nonterminal defined in two places, a reduce/reduce conflict between the rule in between and a later alternative
 		{"rr-split-groups", Parse("S", abc[:2], "S: A | B ; A: TB ; B: TA ; A: TA")},
+		// an empty rule reduced at a depth that grows with the input (right recursion with an empty base; nesting)
+		{"right-rec-empty-base", Parse("L", abc[:1], "L: TA L | ")},
+		{"nested-optional", Parse("S", nil, "S: '(' O ')' ; O: | S")},
+		// bison's %precedence line (a level without associativity) for the unary operator
+		{"precedence-directive", Parse("E", []string{"TA", "TU"}, "E: E '+' E | E '*' E | '-' E %prec TU | '(' E ')' | TA").
+			WithPrec("left '+'", "left '*'", "precedence TU")},
+		// no %start and the nonterminal `start` is not the first rule; `%start start` written out, start not first
+		{"default-start-not-first", Parse("", abc[:3], "A: TB | TC A ; start: start TA A | TA A")},
+		{"start-start-not-first", Parse("start", abc[:3], "A: TB | TC A ; start: start TA A | TA A")},
 		// a reduce/reduce conflict between two rules that carry the same precedence level
 		{"rr-same-level-left", Parse("S", []string{"TA", "TC"}, "S: V | C ; V: TA %prec TC ; C: TA %prec TC").WithPrec("left TC")},
 		{"rr-same-level-right", Parse("S", []string{"TA", "TC"}, "S: V TA | C TA | V ; V: TA %prec TC ; C: TA %prec TC").WithPrec("right TC")},
